@@ -39,7 +39,12 @@ func main() {
 	seed := flag.Int64("seed", 1, "seed")
 	n := flag.Int("n", 1000, "number of cases")
 	out := flag.String("out", "", "output directory")
+	conc := flag.Bool("conc", false, "run the concurrent stage of the property (binary built with -race) and print its result as JSON")
 	flag.Parse()
+	if *conc {
+		runConc(*prop, *seed, *n)
+		return
+	}
 	p := props[*prop]
 	if p == nil {
 		fmt.Fprintln(os.Stderr, "unknown property", *prop)
